@@ -91,14 +91,12 @@ def sizeSubs : List (String × String × OP) → Nat
   | (_, _, p) :: r => p.size + sizeSubs r + 1
 end
 
-mutual
 /-- `flag_names()` -/
 def OP.flagNames : OP → List String
   | .arg .. | .opt .. | .unit .. | .commands .. => []
   | .flag _ sh lg _ _ | .unitSwitch _ sh lg => lg :: sh.toList
   | .optional p | .many p => p.flagNames
   | .prod a b | .sum _ a b => a.flagNames ++ b.flagNames
-end
 
 /-- `option_names()` -/
 def OP.optionNames : OP → Ctx
